@@ -228,6 +228,13 @@ fn check_with<R: Rd>(mut r: R, input: &[u8], cfg: u8, kind: SrcKind, loc: &mut L
         }
     }
     let str_input = std::str::from_utf8(input).ok();
+    let start_tokens: Vec<usize> = toks
+        .iter()
+        .enumerate()
+        .filter(|(_, t)| matches!(t.obs, Obs::Ev(Kind::Start, _, _)) || (cfg & C_EXPAND_EMPTY != 0 && matches!(t.obs, Obs::Ev(Kind::Empty, _, _))))
+        .map(|(i, _)| i)
+        .collect();
+    let mut starts_seen = 0usize;
     for i in 0..reference.len() {
         let (o, p) = r.next()?;
         if (o.clone(), p) != reference[i] {
@@ -237,11 +244,21 @@ fn check_with<R: Rd>(mut r: R, input: &[u8], cfg: u8, kind: SrcKind, loc: &mut L
             Obs::Ev(Kind::Start, _, n) => n.clone(),
             _ => continue,
         };
-        // the token this Start came from
-        let ti = match toks.iter().position(|t| t.after == p && matches!(t.obs, Obs::Ev(Kind::Start, _, _) | Obs::Ev(Kind::Empty, _, _))) {
-            Some(ti) => ti,
-            None => continue, // not a token R_tok knows (cannot happen when C01 holds)
+        // the token this Start came from: the k-th Start event belongs to the k-th start-like token
+        // (Start tokens, and Empty tokens when they are expanded)
+        let ti = match start_tokens.get(starts_seen) {
+            Some(ti) => *ti,
+            None => return Err(format!("call {} returned a Start event but the document has only {} start tags", i, start_tokens.len())),
         };
+        starts_seen += 1;
+        if toks[ti].after != p {
+            return Err(format!(
+                "the position after {} is {} but its tag ends at {}",
+                o.show(),
+                p,
+                toks[ti].after
+            ));
+        }
         let exp = expect_for(&toks, ti, cfg, input);
         let mut c = r.dup();
         let cfg_before = c.cfg();
